@@ -1260,3 +1260,177 @@ def unit_pow(layout, timeout_ms=20000):
     r = run_unit(nm, PowHarness(tuple(layout)), functions=[(MODULE, "NumberOrderedForm.__pow__")], timeout_ms=timeout_ms)
     r.bounded.append(f"mode layout {layout} (number of modes concrete; exponent any non-negative integer)")
     return r
+
+
+# ==================================================================================================
+# _expand_operators / _combine_operators: bringing two forms to a common operator list.
+#   _expand_operators(new): every term keeps its coefficient; the power of new operator i is the power of the same operator in the old list, 0 for
+#   an operator the old list does not have.  Precondition (stated by the docstring, established by _combine_operators): `new` contains every old operator
+#   and is in canonical order, so the relative order of the old operators is unchanged - the term denotes the same product.
+#   _combine_operators(other): equal lists: both forms returned as they are; otherwise both are expanded to ONE list, the canonically sorted union.
+# ==================================================================================================
+
+class NamedOp(OpModel):
+    """an operator with a name; hashable and comparable like the sympy operators (by kind and name)"""
+
+    def __init__(self, kind, name):
+        super().__init__(kind, name)
+        self.name = name
+
+    def __repr__(self):
+        return f"{self.kind}:{self.name}"
+
+    def __hash__(self):
+        return hash((self.kind, self.name))
+
+    def __eq__(self, other):
+        return isinstance(other, NamedOp) and (self.kind, self.name) == (other.kind, other.name)
+
+    def m_getattr(self, eng, name):
+        if name == "name":
+            return self.name
+        raise Unsupported(f"operator.{name}")
+
+    def m_binop(self, eng, op, other, reflected):
+        if isinstance(op, ast.Eq):
+            return self == other
+        if isinstance(op, ast.NotEq):
+            return not (self == other)
+        return NotImplemented
+
+
+def unit_expand_operators(old, new, timeout_ms=20000):
+    """old / new: lists of (kind, name); new contains old"""
+    def harness(eng):
+        eng.int_is_eq = True
+        node = frontend.find(MODULE, "NumberOrderedForm._expand_operators")
+        old_ops = STup([NamedOp(k, nm) for k, nm in old])
+        new_ops = STup([NamedOp(k, nm) for k, nm in new], None, True)
+        p = [eng.fresh(f"p{j}") for j in range(len(old))]
+        coef = Coef(lambda occ: z3.RealVal(1), "f")
+        seen, built = [], []
+
+        class Terms(Model):
+            dictcomp_ok = True
+
+            def m_comprehension(s, e, ce, g, env):
+                cenv = Env(env)
+                cenv.is_comprehension = True
+                e.assign(g.target, STup([STup([SI(x) for x in p]), coef]), cenv)
+                if g.ifs:
+                    raise Unsupported("filtered expansion")
+                seen.append(1)
+                if isinstance(ce, ast.DictComp):
+                    return {"__generic__": (e.eval(ce.key, cenv), e.eval(ce.value, cenv))}
+                return STup([e.eval(ce.elt, cenv)], None, True)
+
+        class Self(Model):
+            def m_getattr(s, e, name):
+                if name == "args":
+                    return STup([old_ops, Terms()])
+                if name == "operators":
+                    return old_ops
+                raise Unsupported(f"self.{name}")
+
+        def cls_call(e, o, terms, validate=True):
+            built.append((o, terms, validate))
+            return NofResult(o, terms)
+        eng.globals.update({"type": Builtin("type", lambda e, x: Builtin("cls", cls_call))})
+        res = eng.call(Closure(node, Env(None, {}), "_expand_operators"), [Self(), new_ops], {})
+        ok = isinstance(res, NofResult) and len(built) == 1 and len(seen) == 1 and isinstance(built[0][1], dict) and "__generic__" in built[0][1]
+        eng.oblige("one-new-term-per-old-term-on-the-new-operator-list", z3.BoolVal(ok and built[0][0] is new_ops), detail=repr(built)[:200])
+        if not ok:
+            return
+        key, val = built[0][1]["__generic__"]
+        newp = eng.as_seq(key)
+        eng.oblige("coefficient-unchanged", z3.BoolVal(val is coef))
+        eng.oblige("one-power-per-new-operator", z3.BoolVal(newp.tail is None and len(newp.items) == len(new)))
+        if newp.tail is None and len(newp.items) == len(new):
+            for i, (k, nm) in enumerate(new):
+                if (k, nm) in old:
+                    eng.oblige(f"power-of-{k}:{nm}-is-its-old-power", zi(newp.items[i]) == p[old.index((k, nm))])
+                else:
+                    eng.oblige(f"power-of-new-operator-{k}:{nm}-is-zero", zi(newp.items[i]) == 0)
+    r = run_unit(f"number_ordered_form:_expand_operators[{len(old)}->{len(new)} operators]", harness, functions=[(MODULE, "NumberOrderedForm._expand_operators")], timeout_ms=timeout_ms)
+    r.bounded.append(f"operator lists {old} -> {new} (concrete; powers symbolic)")
+    return r
+
+
+def unit_combine_operators(a_ops, b_ops, timeout_ms=20000):
+    """a_ops / b_ops: canonically ordered lists of (kind, name)"""
+    KINDS = ["boson", "ladder", "spin", "fermion"]      # generator_types order
+
+    def harness(eng):
+        node = frontend.find(MODULE, "NumberOrderedForm._combine_operators")
+        calls = []
+
+        class Form(Model):
+            def __init__(s, tag, ops):
+                s.tag, s.ops = tag, STup([NamedOp(k, nm) for k, nm in ops])
+
+            def m_getattr(s, e, name):
+                if name == "operators":
+                    return s.ops
+                if name == "_expand_operators":
+                    def ex(e2, new):
+                        e2.used_models.add("contract:_expand_operators keeps every term's denotation on a larger canonically ordered list (verified as its own unit)")
+                        calls.append((s.tag, new))
+                        return ("expanded", s.tag, new)
+                    return Builtin("_expand_operators", ex)
+                raise Unsupported(f"form.{name}")
+
+        class GenTypes(Model):
+            def m_getattr(s, e, name):
+                if name == "index":
+                    return Builtin("index", lambda e2, t: KINDS.index(t.kind))
+                raise Unsupported(name)
+
+        class TypeOf(Model):
+            def __init__(s, kind):
+                s.kind = kind
+        A, B = Form("self", a_ops), Form("other", b_ops)
+
+        def set_(e, x):
+            return set(e.as_seq(x).items)
+
+        def sorted_(e, x, key=None):
+            items = list(x) if isinstance(x, (set, list)) else list(e.as_seq(x).items)
+            keyed = [(e.call(key, [it], {}) if key is not None else it, it) for it in items]
+
+            def plain(k):
+                return tuple(plain(y) for y in k.items) if isinstance(k, STup) else k
+            keyed.sort(key=lambda kv: plain(kv[0]))
+            return STup([it for _k, it in keyed], None, True)
+
+        class SetModel(Model):
+            pass
+        eng.globals.update({"set": Builtin("set", lambda e, x: PySet(set(e.as_seq(x).items))), "sorted": Builtin("sorted", lambda e, x, key=None: sorted_(e, x.s if isinstance(x, PySet) else x, key)),
+                            "generator_types": GenTypes(), "type": Builtin("type", lambda e, o: TypeOf(o.kind)), "str": Builtin("str", lambda e, x: str(x))})
+        res = eng.call(Closure(node, Env(None, {}), "_combine_operators"), [A, B], {})
+        r = eng.as_seq(res)
+        same = list(a_ops) == list(b_ops)
+        if same:
+            eng.oblige("equal-lists:both-forms-returned-unchanged", z3.BoolVal(len(r.items) == 2 and r.items[0] is A and r.items[1] is B and not calls))
+            return
+        union = sorted(set(a_ops) | set(b_ops), key=lambda o: (KINDS.index(o[0]), str(o[1])))
+        ok = len(r.items) == 2 and len(calls) == 2 and [c[0] for c in calls] == ["self", "other"] and r.items[0] == ("expanded", "self", calls[0][1]) and r.items[1] == ("expanded", "other", calls[1][1])
+        eng.oblige("different-lists:self-then-other-each-expanded", z3.BoolVal(ok), detail=repr(res)[:200])
+        if ok:
+            l1, l2 = [(o.kind, o.name) for o in eng.as_seq(calls[0][1]).items], [(o.kind, o.name) for o in eng.as_seq(calls[1][1]).items]
+            eng.oblige("both-expanded-to-one-and-the-same-list", z3.BoolVal(l1 == l2))
+            eng.oblige("the-list-is-the-union-in-canonical-order-(type-then-name)", z3.BoolVal(l1 == union), detail=f"{l1} vs {union}")
+    r = run_unit(f"number_ordered_form:_combine_operators[{len(a_ops)}+{len(b_ops)} operators]", harness, functions=[(MODULE, "NumberOrderedForm._combine_operators")], timeout_ms=timeout_ms)
+    r.bounded.append(f"operator lists {a_ops} and {b_ops} (concrete)")
+    return r
+
+
+class PySet(Model):
+    """a concrete Python set of model objects (hashable models only)"""
+
+    def __init__(self, s):
+        self.s = s
+
+    def m_getattr(self, eng, name):
+        if name == "union":
+            return Builtin("union", lambda e, other: PySet(self.s | set(e.as_seq(other).items)))
+        raise Unsupported(f"set.{name}")
